@@ -367,7 +367,7 @@ class Gen:
                       'map', 'reduce', 'partition', 'interleave', 'interpose', 'range', 'distinct', 'frequencies', 'merge',
                       'zipcoll', 'min', 'max', 'min-of', 'max-of', 'sum', 'product', 'reverse', 'reverse!', 'flatten',
                       'take', 'drop', 'partition', 'range', 'find', 'index-of', 'reduce2', 'map3',
-                      'keep', 'mapcat', 'count2', 'group-by', 'interpose', 'interleave', 'frequencies', 'mapvar', 'mapvar'])
+                      'keep', 'mapcat', 'count2', 'group-by', 'interpose', 'interleave', 'frequencies', 'mapvar', 'mapvar', 'merge-into'])
         kind = r.choice(['(', '['])
         if f == 'find':
             return (f, [F(r.choice(['even', 'odd', 'pos', 'neg?', 'lt3', 'true', 'false'])), (kind, self.ints())])
@@ -436,13 +436,15 @@ class Gen:
             return (f, [I(r.range(-8, 8)), I(r.range(-8, 8)), I(r.choice([1, 2, 3, -1, -2, -3, 0, 5, 7]))])
         if f in ('distinct', 'frequencies'):
             return (f, [self.seqv(elems=[self.scalar() for _ in range(r.below(10))])])
-        if f == 'merge':
+        if f in ('merge', 'merge-into'):
             def dct():
                 d = {}
                 for _ in range(r.below(4)):
                     k = r.choice([I(r.range(0, 3)), ('k', self.raw(1, small=True)), S(self.raw(1, small=True))])
                     d[k] = self.scalar()
                 return (r.choice(['{', '#{']), list(d.items()))
+            if f == 'merge-into':
+                return (f, [('{', dct()[1])] + [dct() for _ in range(r.below(4))])
             return (f, [dct() for _ in range(r.below(4))])
         if f == 'zipcoll':
             ks = [r.choice([I(r.range(0, 4)), ('k', self.raw(1, small=True))]) for _ in range(r.below(6))]
